@@ -123,6 +123,37 @@ def gen_custom(rng, tier, index):
     scn['variants'] = p13.gen_variants(rng, total + 250, tier, names=(name,))
     return scn
 
+PROBE_PULSE = 65535
+
+def gen_landing(rng, tier, index):
+    """A custom-loader tape whose turbo block has one long pulse in the middle of its pilot tone (after enough pilot
+    for the loader's one-second wait).  The loader's edge searches time out repeatedly while the pulse lasts; the length of the pulse is chosen at run time (probe, see p13._landing)
+    so that the edge that ends it lands exactly on (or one T-state beside) an instant at which the loader
+    samples the EAR bit or at which an accelerator's fast-forward ends."""
+    scn = gen_custom(rng, tier, index)
+    scn['blocks'] = scn['blocks'][:1]
+    b = scn['blocks'][0]
+    b['len'] = min(b['len'], 24)
+    b['form'] = rng.choice(('tzx12-13-14', 'pzx'))
+    b['pilot_len'] = 3223
+    scn['tape_fmt'] = rng.choice(('tap', 'pzx'))
+    scn['size'] = b['len'] + 400
+    scn['n1'] = rng.choice((1801, 2001, 2401))     # odd: the extra pulses (n1 + 1) must not change the level at which the PZX DATA block starts
+    scn['landing'] = {'kind': rng.choice(('ffwd', 'ffwd', 'entry', 'any')), 'pick': rng.random(), 'delta': rng.choice((0, 0, 0, 0, 1, -1)), 'pulse': None}
+    name = scn['loader']
+    def strict(**kw):
+        d = {'accelerator': 'none', 'accelerate-dec-a': 0, 'pause': 1, 'python': 0, 'fast-load': 0, 'cmio': 0, 'group': 'strict'}
+        d.update(kw)
+        return d
+    v = [strict(accelerator=rng.choice(('auto', name)), python=1, **{'accelerate-dec-a': rng.choice((0, 1, 3))}),
+         strict(accelerator=rng.choice(('auto', name)), python=0, **{'accelerate-dec-a': rng.choice((0, 1, 3)), 'pause': rng.choice((0, 1))}),
+         strict(accelerator='auto', python=rng.choice((0, 1)), order=rng.getrandbits(32), **{'accelerate-dec-a': rng.choice((0, 2))})]
+    if rng.random() < 0.5:
+        v.append(strict(accelerator=name, python=1, pause=0))
+    v.append({'accelerator': 'none', 'accelerate-dec-a': 0, 'pause': 1, 'python': 0, 'fast-load': 0, 'cmio': 1, 'group': 'weak'})
+    scn['variants'] = v
+    return scn
+
 def _word(n):
     return bytes((n & 0xFF, (n >> 8) & 0xFF))
 
@@ -141,6 +172,10 @@ def tzx_bytes(blocks):
     for b in blocks:
         data, full = _block_bytes(b)
         n = len(full)
+        if b.get('lead'):
+            # first part of the pilot (long enough for the loader's 1 s wait after the first edge), then the long pulse
+            out += bytes((0x12,)) + _word(b['pilot']) + _word(b['lead']['n1'])
+            out += bytes((0x13, 1)) + _word(b['lead']['pulse'])
         if b['form'] == 'tzx11':
             out += bytes((0x11,)) + _word(b['pilot']) + _word(b['sync1']) + _word(b['sync2']) + _word(b['zero']) + _word(b['one']) + _word(b['pilot_len'])
             out += bytes((b['used_bits'],)) + _word(b['pause_ms']) + bytes((n & 0xFF, (n >> 8) & 0xFF, n >> 16)) + full
@@ -158,7 +193,12 @@ def pzx_bytes(blocks):
     out += b'PAUS' + _dword(4) + _dword(2000 * 3500)
     for b in blocks:
         data, full = _block_bytes(b)
-        puls = _word(0x8000 | b['pilot_len']) + _word(b['pilot']) + _word(b['sync1']) + _word(b['sync2'])
+        puls = b''
+        if b.get('lead'):
+            x = b['lead']['pulse']
+            puls += _word(0x8000 | b['lead']['n1']) + _word(b['pilot'])
+            puls += _word(x) if x < 0x8000 else _word(0x8001) + _word(0x8000 | (x >> 16)) + _word(x & 0xFFFF)
+        puls += _word(0x8000 | b['pilot_len']) + _word(b['pilot']) + _word(b['sync1']) + _word(b['sync2'])
         out += b'PULS' + _dword(len(puls)) + puls
         body = _dword(0x80000000 | (len(full) * 8)) + _word(945) + bytes((2, 2)) + _word(b['zero']) * 2 + _word(b['one']) * 2 + full
         out += b'DATA' + _dword(len(body)) + body
